@@ -257,31 +257,75 @@ static void runPlanManual(vh::Rng &r, int n, int m) {
     dumpPlanar(*Q);
 }
 
-static void runPlanRouted(vh::Rng &r, int n, int m) {
-    GSpec g;
-    genLeafless(r, g, n, m);
+// Routing is only input preparation for this property. libavoid's nudging stage aborts on some
+// valid leafless inputs (COLA_ASSERT / stale index in orthogonal.cpp:3040-3041, reported to the
+// C10/C15 owners), so the routing is first tried in a forked child; if the child dies the case
+// is emitted as `plan-routed-skip` (counted in the statistics), otherwise the parent repeats
+// the (deterministic) routing and planarises.
+#include <unistd.h>
+#include <sys/wait.h>
+static bool routeLeafless(Graph_SP G) {
+    HolaOpts opts;
+    LeaflessOrthoRouter lor(G, opts);
+    lor.setShapeBufferDistanceIELScalar(0.125);
+    lor.route();
+    return true;
+}
+
+struct RoutedSpec { GSpec g; std::vector<double> cx, cy; };
+
+static Graph_SP buildRouted(const RoutedSpec &rs) {
     Graph_SP G = std::make_shared<Graph>();
+    std::vector<Node_SP> nodes;
+    for (int i = 0; i < rs.g.n; ++i) {
+        Node_SP u = Node::allocate(rs.cx[i], rs.cy[i], 30, 30);
+        G->addNode(u);
+        nodes.push_back(u);
+    }
+    for (auto &e : rs.g.edges) G->addEdge(nodes[e.first], nodes[e.second]);
+    return G;
+}
+
+static bool runPlanRouted(vh::Rng &r, long k, int n, int m) {
+    RoutedSpec rs;
+    genLeafless(r, rs.g, n, m);
     // nodes on a jittered grid, far enough apart for the router
     int side = 1; while (side * side < n) ++side;
     std::vector<int> cell(side * side);
     for (size_t i = 0; i < cell.size(); ++i) cell[i] = (int) i;
     r.shuffle(cell);
-    std::vector<Node_SP> nodes;
     for (int i = 0; i < n; ++i) {
-        double cx = 120.0 * (cell[i] % side) + 4.0 * r.range(-5, 5), cy = 120.0 * (cell[i] / side) + 4.0 * r.range(-5, 5);
-        Node_SP u = Node::allocate(cx, cy, 30, 30);
-        G->addNode(u);
-        nodes.push_back(u);
+        rs.cx.push_back(120.0 * (cell[i] % side) + 4.0 * r.range(-5, 5));
+        rs.cy.push_back(120.0 * (cell[i] / side) + 4.0 * r.range(-5, 5));
     }
-    for (auto &e : g.edges) G->addEdge(nodes[e.first], nodes[e.second]);
-    HolaOpts opts;
-    LeaflessOrthoRouter lor(G, opts);
-    lor.setShapeBufferDistanceIELScalar(0.125);
-    lor.route();
+    fflush(stdout); fflush(stderr);
+    pid_t pid = fork();
+    if (pid == 0) {
+        Graph_SP Gc = buildRouted(rs);
+        routeLeafless(Gc);
+        _exit(0);
+    }
+    int status = 0;
+    if (pid > 0) waitpid(pid, &status, 0);
+    bool routerOk = (pid > 0) && WIFEXITED(status) && WEXITSTATUS(status) == 0;
+    vh::beginCase(k, routerOk ? "plan-routed" : "plan-routed-skip");
+    for (int i = 0; i < n; ++i) printf("rn %d %s %s 30 30\n", i, vh::hx(rs.cx[i]).c_str(), vh::hx(rs.cy[i]).c_str());
+    for (auto &e : rs.g.edges) printf("re %d %d\n", e.first, e.second);
+    if (!routerOk) {
+        printf("kind skip\nreason router-died status %d\n", status);
+        vh::endCase();
+        return false;
+    }
+    printf("kind plan\n");
+    fflush(stdout);
+    Graph_SP G = buildRouted(rs);
+    routeLeafless(G);
     dumpRouted(*G);
     OrthoPlanariser op(G);
     Graph_SP Q = op.planarise();
     dumpPlanar(*Q);
+    vh::endCase();
+    return true;
 }
 
 int main(int argc, char **argv) {
@@ -305,6 +349,34 @@ int main(int argc, char **argv) {
             vh::beginCase(0, "peel-edgeless");
             printf("kind peel\n");
             runPeel(r, g);
+            vh::endCase();
+        }
+        return 0;
+    }
+    // Second finding: a route segment shorter than CompareActiveEvents' tolerance (1.0) gets its
+    // CLOSE event sorted before its OPEN event in OrthoPlanariser::computeCrossings, the vertical
+    // stays "open" and every later horizontal on that column yields a spurious crossing node with
+    // overlapping edges. Minimal hand-made instance, emitted only with --mode shortseg.
+    if (a.mode == "shortseg") {
+        if (a.want(0)) {
+            vh::beginCase(0, "plan-shortseg");
+            printf("kind plan\nstrict 1\n");
+            Graph_SP G = std::make_shared<Graph>();
+            Node_SP A = Node::allocate(0, 0, 16, 16), B = Node::allocate(60, 40, 16, 16),
+                    C = Node::allocate(-20, 20, 16, 16), D = Node::allocate(100, 20, 16, 16);
+            G->addNode(A); G->addNode(B); G->addNode(C); G->addNode(D);
+            Edge_SP ab = G->addEdge(A, B), cd = G->addEdge(C, D);
+            std::vector<Avoid::Point> r1;
+            r1.push_back(Avoid::Point(0, 0)); r1.push_back(Avoid::Point(20, 0)); r1.push_back(Avoid::Point(20, 0.5));
+            r1.push_back(Avoid::Point(60, 0.5)); r1.push_back(Avoid::Point(60, 40));
+            ab->setRoute(r1);
+            std::vector<Avoid::Point> r2;
+            r2.push_back(Avoid::Point(-20, 20)); r2.push_back(Avoid::Point(100, 20));
+            cd->setRoute(r2);
+            dumpRouted(*G);
+            OrthoPlanariser op(G);
+            Graph_SP Q = op.planarise();
+            dumpPlanar(*Q);
             vh::endCase();
         }
         return 0;
@@ -398,7 +470,7 @@ int main(int argc, char **argv) {
         int n = (int) r.range(2, thorough ? 24 : 9);
         int m = (int) r.range(0, 2 * n);
         vh::beginCase(k, "plan-manual");
-        printf("kind plan\n");
+        printf("kind plan\nstrict 1\n");
         runPlanManual(r, n, m);
         vh::endCase();
     }
@@ -407,10 +479,7 @@ int main(int argc, char **argv) {
         vh::Rng r = vh::caseRng(a.seed, k);
         int n = (int) r.range(3, thorough ? 14 : 8);
         int m = (int) r.range(0, n);
-        vh::beginCase(k, "plan-routed");
-        printf("kind plan\n");
-        runPlanRouted(r, n, m);
-        vh::endCase();
+        runPlanRouted(r, k, n, m);
     }
     return 0;
 }
